@@ -24,6 +24,7 @@ type UnitResult struct {
 	initEv      []Event
 	reg         *SortReg
 	Trusted     bool
+	entryEnd    int
 	ct          *Contract
 }
 
@@ -32,7 +33,7 @@ func (g *Gen) newUnitGen(unit string, fn *ssa.Function, ct *Contract) *UnitGen {
 		init: map[string]Term{}, varSort: map[string]Sort{}, fresh: map[string]int{}, obCtr: map[string]int{},
 		assumed: map[string]string{}, localTypes: map[string]types.Type{}, nonNil: map[string]bool{},
 		closureAt: map[string]*Closure{}, edgeGuard: map[edgeKey]Term{}, inlined: map[string]bool{},
-		callCtr: map[string]int{}, dropped: map[string]bool{}, fresh0: map[string]bool{}, regionCache: map[string]string{}, assertDone: map[string]bool{}, assertCtr: map[string]int{}, keyType: map[string]types.Type{}, mapKeyType: map[string]types.Type{}, quantified: g.contractQuantifies(ct)}
+		callCtr: map[string]int{}, dropped: map[string]bool{}, fresh0: map[string]bool{}, regionCache: map[string]string{}, ghostLocals: map[string]Val{}, assertDone: map[string]bool{}, assertCtr: map[string]int{}, keyType: map[string]types.Type{}, mapKeyType: map[string]types.Type{}, quantified: g.contractQuantifies(ct)}
 }
 
 // shortUnit turns github.com/openconfig/gribigo/server.isNewMaster into server.isNewMaster.
@@ -68,6 +69,9 @@ func (g *Gen) VerifyUnit(ct *Contract, inst *ssa.Function) (res *UnitResult) {
 	for i := range ct.Asserts {
 		ct.Asserts[i].Hits = 0
 	}
+	for i := range ct.Ghosts {
+		ct.Ghosts[i].Hits = 0
+	}
 	u := g.newUnitGen(res.Unit, fn, ct)
 	defer func() {
 		if r := recover(); r != nil {
@@ -79,7 +83,7 @@ func (g *Gen) VerifyUnit(ct *Contract, inst *ssa.Function) (res *UnitResult) {
 			panic(r)
 		}
 	}()
-	g.reg.emitFact = func(f string) { u.assumeRaw(Term{f, SBool}) }
+	g.reg.emitFact = func(f string) { u.assumeStructural(Term{f, SBool}) }
 	u.run()
 	g.reg.emitFact = nil
 	res.Obs = u.obs
@@ -95,6 +99,7 @@ func (g *Gen) VerifyUnit(ct *Contract, inst *ssa.Function) (res *UnitResult) {
 	sort.Strings(res.Inlined)
 	res.events = u.events
 	res.initEv = u.initEv
+	res.entryEnd = u.entryEnd
 	for _, ob := range res.Obs {
 		ob.Inputs = u.inputs
 	}
@@ -228,6 +233,7 @@ func (u *UnitGen) run() {
 		u.assumeRaw(t)
 	}
 	// vacuity: the preconditions are jointly satisfiable
+	u.entryEnd = len(u.events)
 	cover := u.oblige(st, "cover", "cover:requires", "preconditions are satisfiable", TTrue)
 	if cover != nil {
 		cover.Cover = true
@@ -319,6 +325,11 @@ func (u *UnitGen) run() {
 	}
 	u.frameObligations(entry, final, env)
 	u.lockBalance(entry, final, env)
+	for _, gu := range u.contract.Ghosts {
+		if gu.Hits == 0 {
+			unsup("ghost anchor %q matches no executed source line of the function (code moved?)", gu.Anchor)
+		}
+	}
 	for _, a := range u.contract.Asserts {
 		if a.Hits == 0 {
 			unsup("assert anchor %q matches no executed source line of the function (code moved?)", a.Anchor)
@@ -520,6 +531,9 @@ func (r *UnitResult) QueryFor(ob *Obligation, withModel bool) string {
 	}
 	for i := 0; i < ob.Index; i++ {
 		e := r.events[i]
+		if ob.ModularFrom > 0 && i >= r.entryEnd && i < ob.ModularFrom && (e.Kind == EvOblig || (e.Kind == EvAssume && !e.Structural)) {
+			continue
+		}
 		if e.Kind == EvOblig {
 			if !e.Ob.Cover && !terminalKind(e.Ob.Kind) {
 				fmt.Fprintf(&b, "(assert %s) ; assumed after %s\n", e.Ob.Goal.S, e.Ob.Name)
@@ -552,7 +566,24 @@ func (r *UnitResult) QueryFor(ob *Obligation, withModel bool) string {
 }
 
 // IncrementalScript checks all obligations of the unit in one solver run.
-func (r *UnitResult) IncrementalScript() (string, []*Obligation) {
+// ModularCuts lists the distinct modular-loop cut indices of the unit's obligations.
+func (r *UnitResult) ModularCuts() []int {
+	seen := map[int]bool{}
+	var out []int
+	for _, ob := range r.Obs {
+		if ob.ModularFrom > 0 && !seen[ob.ModularFrom] {
+			seen[ob.ModularFrom] = true
+			out = append(out, ob.ModularFrom)
+		}
+	}
+	sort.Ints(out)
+	return out
+}
+
+// IncrementalScript builds one solver script. modular == 0: every obligation that is not
+// tied to a modular loop, in the full context. modular == c: the obligations tied to the loop
+// cut at event c, in the context of the entry assumptions and the events from c on.
+func (r *UnitResult) IncrementalScript(quickMs int, modular int) (string, []*Obligation) {
 	var b strings.Builder
 	b.WriteString("(set-option :produce-models true)\n(set-logic ALL)\n")
 	for _, l := range r.prelude(r.reg) {
@@ -560,14 +591,25 @@ func (r *UnitResult) IncrementalScript() (string, []*Obligation) {
 		b.WriteString("\n")
 	}
 	var order []*Obligation
-	for _, e := range r.events {
+	for i, e := range r.events {
+		if modular > 0 && i >= r.entryEnd && i < modular && (e.Kind == EvOblig || (e.Kind == EvAssume && !e.Structural)) {
+			continue
+		}
 		if e.Kind == EvOblig {
 			ob := e.Ob
 			if ob.Result == "unsat" && ob.Backend == "syntactic" {
 				continue
 			}
+			if ob.ModularFrom != modular {
+				// checked in another script; in this one it is at most an assumption
+				if !ob.Cover && !terminalKind(ob.Kind) && len(ob.Parts) == 0 && (modular == 0 || i >= modular) {
+					fmt.Fprintf(&b, "(assert %s)\n", ob.Goal.S)
+				}
+				continue
+			}
 			if ob.Cover {
-				fmt.Fprintf(&b, "(push 1)\n(assert %s)\n(check-sat)\n(pop 1)\n", ob.Goal.S)
+				// vacuity guards get a short budget: the question is only whether a contradiction is derivable
+				fmt.Fprintf(&b, "(set-option :timeout 1500)\n(push 1)\n(assert %s)\n(check-sat)\n(pop 1)\n(set-option :timeout %d)\n", ob.Goal.S, quickMs)
 			} else if len(ob.Parts) > 0 {
 				for _, p := range ob.Parts {
 					fmt.Fprintf(&b, "(push 1)\n(assert (not %s))\n(check-sat)\n(pop 1)\n", p.S)
